@@ -609,6 +609,10 @@ class Interp:
             raise Unsupported('membership in a descending range')
         if isinstance(cont, dict):
             cont = list(cont.keys())
+        if isinstance(cont, IterV):                      # d.keys() / d.values() of a dict with a concrete number of entries
+            cont = list(cont.items)
+        if type(cont).__name__ == 'KeysView':            # keys of a symbolic map
+            return cont.m.has(item)
         if isinstance(cont, (list, tuple, set, frozenset)):
             cs = []
             for x in cont:
